@@ -27,7 +27,14 @@ func loadOfRecvField(fn *ssa.Function, v ssa.Value, name string) bool {
 	case *ssa.Field:
 		base = x.X
 	}
-	return isReceiverValue(fn, base)
+	if isReceiverValue(fn, base) {
+		return true
+	}
+	// the load may sit in a helper method the rule looks through
+	if ins, ok := v.(ssa.Instruction); ok && ins.Parent() != nil && ins.Parent() != fn {
+		return isReceiverValue(ins.Parent(), base)
+	}
+	return false
 }
 
 // derivesFromInstanceNameOf: v derives from GetInstanceName() applied to a
@@ -265,6 +272,36 @@ func runR181(c *Ctx) {
 					namesArg = a.Call.Args[2]
 				}
 				okNames, _ := derivesFromInstanceNameOf(c, fn, namesArg, params)
+				fullViaHelper := false
+				if !okNames {
+					// the names may be collected by a helper function that is given the digests
+					if hc, isCall := stripConv(namesArg).(*ssa.Call); isCall {
+						if h := hc.Call.StaticCallee(); h != nil && len(h.Blocks) > 0 && h.Pkg == fn.Pkg {
+							hparams := map[ssa.Value]bool{}
+							for i, arg := range hc.Call.Args {
+								if params[arg] && i < len(h.Params) {
+									hparams[h.Params[i]] = true
+								}
+							}
+							if len(hparams) > 0 {
+								all, allFull := true, true
+								for _, r := range returnsOf(h) {
+									if len(r.Results) == 0 {
+										all = false
+										continue
+									}
+									if d, _ := derivesFromInstanceNameOf(c, h, r.Results[0], hparams); !d {
+										all = false
+									}
+									if !fullItemsRange(c, h, r.Results[0], hparams, r) {
+										allFull = false
+									}
+								}
+								okNames, fullViaHelper = all, all && allFull
+							}
+						}
+					}
+				}
 				if !okNames {
 					why = "the instance names authorized do not derive from GetInstanceName() of this call's digest parameter"
 					continue
@@ -277,7 +314,7 @@ func runR181(c *Ctx) {
 					}
 				} else {
 					// all items: the names must come from a full range over Items()
-					if !fullItemsRange(c, fn, namesArg, params, a) {
+					if !fullViaHelper && !fullItemsRange(c, fn, namesArg, params, a) {
 						why = "the instance names authorized are not collected by a complete, unconditional range over every digest of the set that dominates the authorizer call (some instance names could reach the backend without being authorized)"
 						continue
 					}
